@@ -297,6 +297,27 @@ func init() {
 		"log.Println":  nop,
 		"log.Print":    nop,
 
+		// ---- ristretto cache: may always miss (documented contract of a cache) ----
+		"github.com/dgraph-io/ristretto.NewCache": func(m *Machine, _ *frame, fn *ssa.Function, a []Value) Value {
+			res := fn.Signature.Results()
+			cell := new(Value)
+			*cell = m.zero(deref(res.At(0).Type()))
+			return Tuple{cell, Iface{}}
+		},
+		"(*github.com/dgraph-io/ristretto.Cache).Get": func(m *Machine, _ *frame, fn *ssa.Function, a []Value) Value {
+			return Tuple{Iface{}, m.C.False}
+		},
+		"(*github.com/dgraph-io/ristretto.Cache).Set": func(m *Machine, _ *frame, fn *ssa.Function, a []Value) Value { return m.C.True },
+
+		// ---- zyedidia hashmap: the real code runs, with the user-supplied hash closure replaced by
+		// the constant 0. For any hash consistent with the supplied equality (obligation C09) the
+		// observable behaviour of the open-addressing map is that of an association list.
+		"github.com/zyedidia/generic/hashmap.New": func(m *Machine, caller *frame, fn *ssa.Function, a []Value) Value {
+			na := append([]Value(nil), a...)
+			na[2] = &Native{Kind: "const-hash", Obj: func(m *Machine, caller *frame, args []Value) Value { return m.C.Const(64, 0) }}
+			return m.runBody(caller, fn, na, nil)
+		},
+
 		// ---- sort ----
 		"sort.Slice":       sortSliceIntr,
 		"sort.SliceStable": sortSliceIntr,
